@@ -31,7 +31,7 @@ func CreatePropellerUnits(
 		return nil, fmt.Errorf("encoding the message: %w", err)
 	}
 
-	merkleRoot, merkleTree := merkle.New(encodedMessage)
+	merkleRoot, merkleTree := merkle.New(merkleLeaves(encodedMessage))
 	messageRoot := MessageRoot(merkleRoot)
 
 	signature, err := SignMessage(privKey, &messageRoot, committeeID, nonce)
@@ -57,6 +57,16 @@ func CreatePropellerUnits(
 		}
 	}
 	return units, nil
+}
+
+// merkleLeaves returns the Merkle leaf of every shard: the proto encoding of the ShardsOfPeer
+// message holding it (see proto/propeller.proto), which is what UnitValidator verifies against.
+func merkleLeaves(shards [][]byte) [][]byte {
+	leaves := make([][]byte, len(shards))
+	for i, shard := range shards {
+		leaves[i] = ShardData{shard}.MarshalProto()
+	}
+	return leaves
 }
 
 // ConstructMessageFromUnits receives Propeller units, recovers any missing data and returns
@@ -97,7 +107,7 @@ func ConstructMessageFromUnits(
 		}
 	}
 
-	merkleRoot, merkleTree := merkle.New(shards)
+	merkleRoot, merkleTree := merkle.New(merkleLeaves(shards))
 
 	// Any present unit carries the signed root (units[0] is nil whenever shard 0 is missing).
 	// RecoverData succeeded, so at least one unit is present.
